@@ -9,6 +9,6 @@ def clientonly_reflex : Bool := true
 def clientonly_views : Bool := true
 def pool_foreign_access : List Nat := []
 def pool_new_binds_own : Bool := true
-def pool_unpaired : List String := ["server/server.go:serveMsgBy"]
+def pool_unpaired : List Nat := []
 
 end SdnsVerif.Gen.C17
